@@ -952,12 +952,32 @@ pub mod comp2 {
                         let opts = ShapeCastOptions { max_time_of_impact: max_toi, target_distance: target, stop_at_penetration: stop, compute_impact_geometry_on_penetration: true };
                         let got = match d.cast_shapes(&pos12, &vel12, g1, g2, opts) { Ok(v) => v, Err(_) => return "unsupported ; unsupported".into() };
                         let vel_cx = if first { vel12 } else { -pos12.inverse_transform_vector(&vel12) };
+                        let mut best_part: Option<(f64, Isometry<Real>, Vector<Real>, usize)> = None; let mut pi = 0usize;
                         let bf = minf(ps.iter().filter_map(|(pp, s)| {
                             let r = match pp { Some(pp) => d.cast_shapes(&pp.inv_mul(&pos_cx), &pp.inverse_transform_vector(&vel_cx), &**s, &*gx, opts),
                                                None => d.cast_shapes(&pos_cx, &vel_cx, &**s, &*gx, opts) };
+                            { let (m, v) = match pp { Some(pp) => (pp.inv_mul(&pos_cx), pp.inverse_transform_vector(&vel_cx)), None => (pos_cx, vel_cx) };
+                              if let Ok(Some(h)) = &r { if best_part.map(|b| h.time_of_impact < b.0).unwrap_or(true) { best_part = Some((h.time_of_impact, m, v, pi)); } } }
+                            pi += 1;
                             if std::env::var("VERIF_DBG").is_ok() { eprintln!("part {:?} -> {:?}  (pos_cx {:?} vel_cx {:?} aabb {:?})", s.as_segment(), r, pos_cx, vel_cx, gx.compute_aabb(&pos_cx)); }
                             r.ok().flatten().map(|h| h.time_of_impact) }));
-                        format!("{} ; {} ; lim {}", fo(got.map(|h| h.time_of_impact)), fo(bf), ff(max_toi))
+                        // tie qualifier (as in the 3-D family): the composite misses the earliest part although the part's own cast reports an
+                        // impact - when the boxes of the part and of the moving shape overlap for no more than an instant the impact is a
+                        // GRAZING one (tangential, within rounding) and the conservative box test of the visitor sits on the same knife edge
+                        let mut graze = "";
+                        if let Some((tb, m, v, idx)) = best_part {
+                            if got.map(|h| h.time_of_impact > tb + 1.0e-4 * (1.0 + tb)).unwrap_or(true) {
+                                let (ba, bb) = (ps[idx].1.compute_local_aabb(), gx.compute_aabb(&m));
+                                let (mut tin, mut tout) = (f64::NEG_INFINITY, f64::INFINITY);
+                                for k in 0..2 {
+                                    if v[k] == 0.0 { if bb.maxs[k] < ba.mins[k] || ba.maxs[k] < bb.mins[k] { tout = f64::NEG_INFINITY; } }
+                                    else { let (t1, t2) = ((ba.mins[k] - bb.maxs[k]) / v[k], (ba.maxs[k] - bb.mins[k]) / v[k]);
+                                           tin = tin.max(t1.min(t2)); tout = tout.min(t1.max(t2)); }
+                                }
+                                if tout - tin <= 1.0e-9 * (1.0 + tb.abs()) { graze = " ; graze"; }
+                            }
+                        }
+                        format!("{} ; {} ; lim {}{}", fo(got.map(|h| h.time_of_impact)), fo(bf), ff(max_toi), graze)
                     }
                 }
             }
